@@ -451,9 +451,30 @@ func uploadPackPart(c *vf.Ctx, g *gitx.Git, tmpl string, commits []string) {
 			req.Capabilities.Add(capability.Agent, "go-git/6.x")
 		}
 		var wantShallow []string // expected shallow boundary (only for a single linear want)
+		var wantUnshallow []string
 		depthKind := ""
 		single := len(req.Wants) == 1 || (len(req.Wants) == 2 && req.Wants[1] == req.Wants[0])
-		switch r.Intn(5) {
+		pick := r.Intn(5)
+		if i%5 == 0 {
+			// a shallow client (depth 1 at the tip) deepens its unchanged tip: it wants the commit it is shallow at
+			req.Wants = []plumbing.Hash{hashOf(main)}
+			if r.Intn(2) == 0 {
+				req.Wants = append(req.Wants, hashOf(main))
+			}
+			feat, single, pick = []string{"shallow-at-want"}, true, 5
+			d := 2 + r.Intn(3)
+			req.Depth.Deepen = d
+			req.Shallows = []plumbing.Hash{hashOf(main)}
+			if r.Intn(3) == 0 {
+				req.Shallows = append(req.Shallows, hashOf(main)) // repeated
+			}
+			req.Capabilities.Add(capability.Shallow)
+			depthKind = "deepen"
+			wantShallow = []string{commits[5-(d-1)]}
+			wantUnshallow = []string{main}
+			c.Count("git_uploadpack_shallow_at_want", 1)
+		}
+		switch pick {
 		case 0:
 			d := 1 + r.Intn(4)
 			req.Depth.Deepen = d
@@ -548,6 +569,12 @@ func uploadPackPart(c *vf.Ctx, g *gitx.Git, tmpl string, commits []string) {
 			if wantShallow != nil {
 				if got := sortedHex(su.Shallows); fmt.Sprint(got) != fmt.Sprint(wantShallow) {
 					c.Fail("UploadRequest:git-upload-pack:shallow-boundary:"+depthKind, fmt.Sprintf("git computed shallow boundary %v for go-git's %s request, the value describes %v; wire %s", got, depthKind, wantShallow, vf.Q(wire)), replay)
+					return
+				}
+			}
+			if wantUnshallow != nil {
+				if got := sortedHex(su.Unshallows); fmt.Sprint(got) != fmt.Sprint(wantUnshallow) {
+					c.Fail("UploadRequest:git-upload-pack:unshallow:shallow-at-want", fmt.Sprintf("the client said it is shallow at %v and deepens: git must answer `unshallow` for it but answered unshallow %v (shallow %v) — git did not learn the client's shallow boundary from go-git's request; wire %s", wantUnshallow, got, sortedHex(su.Shallows), vf.Q(wire)), replay)
 					return
 				}
 			}
